@@ -1340,6 +1340,19 @@ func makeTaskForMesosResources(
 	offerIDsToDecline map[mesos.OfferID]struct{},
 ) (*Task, *mesos.TaskInfo) {
 
+	// The static ports this task asks for are taken out of the offer first, so that no port picked
+	// dynamically below, or for a later task on the same offer, can coincide with one of them
+	if len(wants.StaticPorts) > 0 {
+		staticPortsBuilder := resources.BuildRanges()
+		for _, rng := range wants.StaticPorts {
+			staticPortsBuilder = staticPortsBuilder.Span(rng.Begin, rng.End)
+		}
+		staticPortsResource := resources.Build().
+			Name(resources.Name("ports")).
+			Ranges(staticPortsBuilder.Ranges.Sort().Squash())
+		remainingResourcesInOffer.Subtract(staticPortsResource.Resource)
+	}
+
 	bindMap := make(channel.BindMap)
 	for _, ch := range wants.InboundChannels {
 		if ch.Addressing == channel.IPC {
